@@ -7,7 +7,8 @@ TECHNIQUE = 'deductive verification: callback-step invariants over ghost complet
 LEVEL_TEXT = ('The link callbacks of WhenAll and WhenAny are verified as steps that preserve an invariant from any state satisfying it, so every completion order and every subset already complete at call time is covered by induction over the steps. '
               'WhenAll: the countdown equals n minus the recorded successes, recorded values are the inputs\' values in input order, the result is failed exactly when some completed input failed (as soon as it does) and succeeds with the ordered list exactly when all n succeeded. '
               'WhenAny (taken from the statement): succeeded exactly when some input has succeeded, with the first such value and never changed afterwards; failed exactly when all n inputs are done and none succeeded. '
-              'The call-time shortcut of WhenAny is verified against the same statement (it may return an input only if that input succeeded).')
+              'The call-time shortcut of WhenAny is verified against the same statement (it may return an input only if that input succeeded).'
+              ' ContinueWith\'s continuation body completes its result exactly once whatever the callback does -- return, raise an Exception, or raise one of gevent\'s BaseException-only exceptions (Timeout, GreenletExit) -- and lets nothing escape; Map\'s continuation applies the function only to a successful value and passes a failed source on unchanged, deciding when the source has completed.')
 LEVEL_NOTE = ('Trusted: pyvc encoding, z3; gevent runs each input\'s link once, after that input completed (stated as the callbacks\' precondition, with the counting fact "fewer than n links have run before this one"); '
               'set()/set_exception() overwrite (gevent semantics, assumed contracts). Unwrap/_UnwrapHelper, ContinueWith and Map are not under contract in this version; n = 0 (never resolves) is outside the claim.')
 ASSUMPTIONS = ['each link callback runs once per input, after the input completed', 'input results do not change after completion']
